@@ -1,4 +1,4 @@
-CONSTANTS Families = {"one", "rsv"}  Bug = "NoOffsetSub"  Emit = FALSE
+CONSTANTS Families = {"mini"}  Bug = "NoOffsetSub"  Emit = FALSE
   TwoFlags = {}
   TwoSizes = {}
   ThreeSizes = {}
